@@ -66,10 +66,11 @@ def _fe_runs(tier):
 
 
 def _fsg_runs(tier):
+    eps = [dict(h='mc_fsg', label='fsg-eps4-shard%d' % i, args=['--family', 'eps4', '--shard', '%d/16' % i]) for i in range(16)]
     if tier == 'quick':
         return [dict(h='mc_fsg', label='fsg-3states-3arcs-shard%d' % i, args=['--states', '3', '--arcs', '3', '--shard', '%d/16' % i])
-                for i in range(16)]
-    return ([dict(h='mc_fsg', label='fsg-3states-4arcs-shard%d' % i, args=['--states', '3', '--arcs', '4', '--shard', '%d/32' % i])
+                for i in range(16)] + eps
+    return (eps + [dict(h='mc_fsg', label='fsg-3states-4arcs-shard%d' % i, args=['--states', '3', '--arcs', '4', '--shard', '%d/32' % i])
              for i in range(32)]
             + [dict(h='mc_fsg', label='fsg-4states-3arcs-shard%d' % i, args=['--states', '4', '--arcs', '3', '--shard', '%d/16' % i])
                for i in range(16)])
@@ -164,6 +165,9 @@ def _c02_specs(tier):
                   if name in ('f1a1', 'lw1pen-f0') or tier == 'thorough' else
                   ('c02-open-%s-enum22' % name, ['--conf', 'open'] + extra + ['--gset', 'enum:2:2', '--words', 'a,go', '--probs', '1,0.5',
                                                                             '--syms', 'SIL,AH,G,OW,_', '--segs', '3', '--routes', 'api', '--patterns', '1']))
+    # words whose word-initial triphones are TIED across left contexts in en-us (G(SIL,OW) = G(T,OW)): lextree roots shared by several contexts
+    sp.append(('c02-open-ties-enum22', ['--conf', 'open', '--gset', 'enum:2:2', '--words', 'go,goat,at', '--syms', 'SIL,G,OW,T,AE,_', '--segs', '3',
+                                        '--routes', 'api', '--patterns', '1']))
     for conf in ('default', 'tight'):
         sp.append(('c02-%s-enum23' % conf, ['--conf', conf, '--gset', 'enum:2:3', '--words', 'a,go,no', '--syms', SYM3, '--segs', '2',
                                            '--routes', 'api', '--patterns', '1']))
@@ -614,11 +618,12 @@ CHECKS = {
         title='grammar transformations and FSG files preserve the grammar',
         level='exploration',
         runs={'quick': _fsg_runs('quick'), 'thorough': _fsg_runs('thorough')},
-        budget_s={'quick': 300, 'thorough': 3000},
+        budget_s={'quick': 600, 'thorough': 3000},
         coverage=ex_cov,
         rule='every finite-state grammar with 1..N states, every start/final choice, every MULTISET of 0..A arcs from '
              '{from,to} x {a,b,eps} x {1,0.5,1e-8}, language weight {1,6.5} (N=3,A=3 quick; N=3,A=4 and N=4,A=3 thorough), built through '
-             'the public fsg_model API; closure (x2), add_silence (x2), add_alt, closure, write->read applied; oracle: tropical-semiring '
+             'the public fsg_model API; plus the null-transition family: all 3^12 graphs on 4 states whose ordered state pairs carry no null arc, one '
+             'of probability 0.5 or one of 1e-8 (every labelling, hence every processing order of the closure); closure (x2), add_silence (x2), add_alt, closure, write->read applied; oracle: tropical-semiring '
              'evaluation of the arc list (accepted set + best log-probability of all 31 strings over {a,b} up to length 4), closure '
              'completeness, idempotence, round-trip equality to printed precision. non-trivial = the grammar accepts at least one '
              'string; every enumerated (grammar, lw) is distinct by construction',
